@@ -96,7 +96,8 @@ Q2Links  == { <<1, 1, Zero64>>, <<8, 5, Pow2m1(63)>> }
 Q1T      == {Pow2m1(7), Pow2(7)}
 T1Data   == {[present |-> FALSE, perm |-> 0], [present |-> TRUE, perm |-> 127], [present |-> TRUE, perm |-> 128],
              [present |-> TRUE, perm |-> 4095]}
-            \X {NoMtime, [neg |-> FALSE, mag |-> Zero64, ns |-> 0], [neg |-> FALSE, mag |-> Pow2(62), ns |-> 1],
-                [neg |-> TRUE, mag |-> Pow2(35), ns |-> 999999999], [neg |-> TRUE, mag |-> ZeroTimeMag, ns |-> 1]}
-T2Links  == {1, 2, 5, 8} \X {1, 3, 5} \X {Zero64, Pow2m1(7), Pow2(7), Pow2(56), Pow2m1(63)}
+            \X {NoMtime, [neg |-> FALSE, mag |-> Pow2(62), ns |-> 1], [neg |-> TRUE, mag |-> Pow2(35), ns |-> 999999999]}
+T2Links  == {1, 2, 5, 8} \X {1, 3, 5} \X {Pow2m1(7), Pow2m1(63)}
+H3N      == {1, 9}
+H3C      == {1, 5}
 =============================================================================
